@@ -828,6 +828,8 @@ class Rewriter:
         b = self.sub('R22:model-type', r'(?<![\w:])Vec::new_in\(', 'VecM::new_in(hs, ', b)
         b = self.sub('R22:model-type', r'(?<![\w:])Vec::from_iter_in\(', 'VecM::from_iter_in(hs, ', b)
         b = self.sub('R22:model-type', r'(?<![\w:])RawVec::new_in\(', 'RawVecM::new_in(hs, ', b)
+        b = self.sub('R22:model-type', r'(?<![\w:])RawVec::from_raw_parts_in\(', 'RawVecM::from_raw_parts_in(hs, ', b)
+        b = self.sub('R22:model-type', r'(?<![\w:])Vec::from_raw_parts_in\(', 'VecM::from_raw_parts_in(hs, ', b)
         b = self.sub('R22:model-type', r'(?<![\w:])ExtendElement\(', 'ExtendElement(', b)
         b = self.sub('R22:clone-token', r'\bself\.0\.clone\(\)', 'elem_clone(&e.0)', b)
         b = self.sub('R22:self-is-param', r'\bself\.0\b', 'e.0', b)
